@@ -138,6 +138,8 @@ func runC16(c *Ctx) {
 	c16SetConvert(c, kc)
 	c16Index(c)
 	c16MapResultsMade(c)
+	c.rule("index-within-length", "no loop index used for reflect.Value.Index / slice indexing runs up to a capacity (elements between length and capacity do not exist: reflect panics)", 1)
+	c16IndexWithinLength(c, "index-within-length")
 	c16WrongErrorReturned(c, "wrong-error-returned")
 	c16AnonStructOnly(c, "anon-struct-only")
 	c16AddrGuard(c)
